@@ -289,9 +289,11 @@ func vsGenHist(r *rand.Rand) vsHist {
 	}
 	var last [4]*vsSvc
 	var lastPeers []vbPeer
+	var lastCfg *vsCfg
 	for _, e := range h.Evs {
 		if e.Op == "cfg" {
 			lastPeers = e.Cfg.Peers
+			lastCfg = e.Cfg
 		}
 	}
 	// a Node update of this node that changes labels only: towards (or away from) a selector of a configured peer
@@ -378,6 +380,29 @@ func vsGenHist(r *rand.Rand) vsHist {
 			h.Evs = append(h.Evs, vsEv{Op: "del", Name: k})
 		case x < 72:
 			c := vsGenCfg(r)
+			if lastCfg != nil && r.Intn(3) == 0 && len(lastCfg.Pools) > 0 {
+				// the previous configuration with the advertisements of ONE protocol added to / dropped from one pool
+				d := *lastCfg
+				d.Pools = append([]vsPool(nil), lastCfg.Pools...)
+				pi := r.Intn(len(d.Pools))
+				pl := d.Pools[pi]
+				if r.Intn(2) == 0 {
+					if len(pl.BGP) == 0 {
+						pl.BGP = vbGenBAdvs(r)
+					} else {
+						pl.BGP = nil
+					}
+				} else {
+					if len(pl.L2) == 0 {
+						pl.L2 = []vsL2Adv{{Nodes: []int{0, 1, 2}, Ifs: []int{}, All: true}}
+					} else {
+						pl.L2 = nil
+					}
+				}
+				d.Pools[pi] = pl
+				c = &d
+			}
+			lastCfg = c
 			lastPeers = c.Peers
 			h.Evs = append(h.Evs, vsEv{Op: "cfg", Cfg: c})
 		case x < 88:
@@ -540,6 +565,11 @@ func vsIfIdx(s string) int {
 }
 
 func vsSvcIdx(s string) int {
+	for k, key := range vbSvcKeys {
+		if key == s {
+			return k
+		}
+	}
 	var i int
 	if _, err := fmt.Sscanf(s, "ns/s%d", &i); err != nil {
 		return 99
@@ -1832,6 +1862,23 @@ func TestVerifSpk(t *testing.T) {
 	}}
 	id++
 	vsRunHistory(out, id, "corpus-advertisements-with-different-selectors", ifsHist, r)
+	// a pool first advertised over layer 2 only gets a BGPAdvertisement (and vice versa) while its Services are
+	// announced; then a Service loses its endpoints, another is deleted: every protocol must withdraw
+	l2only := &vsCfg{Pools: []vsPool{{CIDRs: []string{"10.20.30.0/24", "fc00:30::/64"}, L2: all}}, Peers: []vbPeer{{Name: 0, Sels: [][][2]int{}}}}
+	bgponly := &vsCfg{Pools: []vsPool{{CIDRs: []string{"10.20.30.0/24", "fc00:30::/64"}, BGP: bgpAdv}}, Peers: []vbPeer{{Name: 0, Sels: [][][2]int{}}}}
+	noEps := &vsSvc{LB: true, IPs: []string{"10.20.30.2"}}
+	second := vsHist{Speakers: []int{0}, Evs: []vsEv{
+		{Op: "node", Node: &vsNode{Idx: 0}}, {Op: "cfg", Cfg: l2only},
+		{Op: "svc", Name: 0, Svc: svcIPs("10.20.30.1")}, {Op: "svc", Name: 1, Svc: svcIPs("10.20.30.2")},
+		{Op: "cfg", Cfg: dualPool}, // + BGPAdvertisement
+		{Op: "del", Name: 0}, {Op: "svc", Name: 1, Svc: noEps},
+		{Op: "cfg", Cfg: bgponly},
+		{Op: "svc", Name: 0, Svc: svcIPs("10.20.30.1")}, {Op: "svc", Name: 1, Svc: svcIPs("10.20.30.2")},
+		{Op: "cfg", Cfg: dualPool}, // + L2Advertisement
+		{Op: "svc", Name: 1, Svc: noEps}, {Op: "del", Name: 0},
+	}}
+	id++
+	vsRunHistory(out, id, "corpus-second-protocol-added", second, r)
 	// memberlist disabled: the Node object of the election's winner is deleted; the speaker never hears of it
 	ownerGone := vsOwnerFlipHist(1, false)
 	ownerGone.Disabled, ownerGone.Speakers = true, nil
